@@ -2,7 +2,7 @@ package main
 
 // Rules added after the first seeding rounds; appended to the per-property explanation in the evidence.
 var extraExplanation = map[string]string{
-	"C02": " Also decided: (R2.7) the in-memory back-end keeps the newest rounds, ordered, without duplicates, and looks rounds up by equality.",
+	"C02": " Also decided: (R2.7) the in-memory back-end keeps the newest rounds, ordered, without duplicates, and looks rounds up by equality; (R2.8) the error of every persistence call on the beacon path (store Put/Del, bolt bucket writes and transactions) is branched on or returned.",
 	"C03": " Also decided: (R3.5) the vault replaces share, group and public polynomial together, and the polynomial is derived from the group being installed.",
 	"C04": " Also decided: (R4.7) every tick time the ticker emits is a reading of the injected clock taken when the tick is emitted (Now() at the send, or the clock's own ticker), never a time computed before a sleep.",
 	"C05": " Also decided: (R5.5) the sync deadline is pushed back only by progress (a synced beacon or the start of a new sync) and both renewal conditions lead to a new sync before the loop comes back to its select; (R5.6) no wait on the Done channel of a context the function already cancelled; (R5.8) the round signed is head+1 (or the ticked round when it equals the head).",
@@ -13,7 +13,7 @@ var extraExplanation = map[string]string{
 	"C10": " Also decided: (R10.4) the follow loop does not wait on a context it has just cancelled; (R10.7) the append layer advances its head only after the write below succeeded, so a failed write can be retried from another peer.",
 	"C11": " Also decided: (R11.1) the cursor seek argument is exactly the request's from-round; (R11.2) each subscriber queue has exactly one consumer; (R11.3) when the subscription overlaps the scan, the live callback skips rounds using a mark the scan advances; (R11.6) the layer below the dispatcher refuses a round it already holds.",
 	"C12": " Also decided: (R12.2) SyncChain removes its callback when the stream's context ends; (R12.7) handling one partial starts no goroutine.",
-	"C13": " Also decided: (R13.5) a beacon is handed to subscribers only after the store below committed it; (R13.6) switching to a new group removes no key material before writing the new files.",
+	"C13": " Also decided: (R13.5) a beacon is handed to subscribers only after the store below committed it; (R13.6) switching to a new group removes no key material before writing the new files; (R13.7) the error of every persistence call (DKG state store, key store, bolt writes) is branched on or returned.",
 	"C16": " Also decided: (R16.1) also the time.Time spelling genesis.Add(n*period) outside common/time.go; (R16.6) a tick's round and time are computed from one clock reading.",
 	"C17": " Also decided: (R17.2) every value given to binary.Write in the hash functions has a fixed-size type (anything else is silently left out of the hash); (R17.5) the chain info's seed input is the carried-over genesis seed, not a value that changes with membership.",
 	"C18": " Also decided: (R18.5) Len counts the stored keys (bucket statistics inside a read transaction / slice length), not a side counter.",
